@@ -5,7 +5,7 @@ do not fit; unknown and wrongly-cased option names; zero parts — the result cl
 equal the model's.  Propagation stream: a generated program (tools/inventory.py -> harness/src/generated_propagate.rs,
 own binary) calls every chainable Result-receiver method of the crate (202 found by parsing /repo/src; uncovered
 ones are listed) on each of the 15 error variants and must get that same error back."""
-import os, subprocess
+import os, subprocess, itertools
 from common import *
 import vlib
 
@@ -69,6 +69,40 @@ def gen(seed, tier):
             out.append(f"index_to_coord {lst(sh)} {z(i)}")
             out.append(f"delete {a} {lst([i])} n")
             out.append(f"insert {a} {lst([i])} a1:9 n")
+        # index / axis LISTS in which only some entries are out of range (any position), duplicates, wrong lengths
+        cand = sorted({0, max(tot - 1, 0), tot, tot + 1, 2 ** 40})
+        for L in (2, 3):
+            for idx in itertools.product(cand, repeat=L):
+                if any(i >= tot for i in idx) and (L == 2 or rng.random() < 0.3):
+                    out.append(f"delete {a} {lst(idx)} n")
+                    out.append(f"insert {a} {lst(idx)} a1:9 n")
+        for ax in range(n):
+            m = sh[ax]
+            for idx in itertools.product(sorted({0, m - 1, m, m + 2}), repeat=2):
+                if any(i >= m for i in idx):
+                    out.append(f"delete {a} {lst(idx)} {z(ax)}")
+                if any(i > m for i in idx):
+                    out.append(f"insert_entry {a} {lst(idx)} a1:7 {z(ax)}")
+            for reps in ([1] * (m + 1), [1] * max(m - 1, 0) if m > 2 else [1, 1, 1, 1, 1], []):
+                out.append(f"repeat {a} {lst(reps)} {z(ax)}")
+        bad_ax = [n, -n - 1, 2 ** 31]
+        for b in bad_ax:
+            for pos in range(2):
+                two = [0, b] if pos else [b, 0]
+                out.append(f"flip {a} {lst(two)}")
+                out.append(f"roll {a} l1,1 {lst(two)}")
+                out.append(f"expand_dims {a} {lst(two)}")
+                out.append(f"squeeze {a} {lst(two)}")
+                out.append(f"moveaxis {a} {lst(two)} {lst([0, n - 1] if n > 1 else [0, 0])}")
+                out.append(f"moveaxis {a} {lst([0, n - 1] if n > 1 else [0, 0])} {lst(two)}")
+        out.append(f"roll {a} l1,2 l0")
+        out.append(f"roll {a} l1 l0,0")
+        out.append(f"flip {a} l0,0")
+        out.append(f"moveaxis {a} l0,0 l0,{n - 1}")
+        out.append(f"moveaxis {a} l0 l0,{n - 1}")
+        out.append(f"transpose {a} {lst([0] * n)}")
+        out.append(f"transpose {a} {lst(list(range(n)) + [0])}")
+        out.append(f"expand_dims {a} l0,0")
         for c in ([], [0] * (n - 1), [0] * (n + 1), [d for d in sh], [2 ** 40] * n):
             out.append(f"index_at {lst(sh)} {lst(c)}")
             out.append(f"at {a} {lst(c)}")
